@@ -136,6 +136,26 @@ theorem subtree_reach_nodup (dflt : ν) (lv : Nat → FpLevel) (d : Nat) (f : Tr
 
 example : WF 2 exTree := (fp_wfB_iff 2 exTree).1 (by decide)
 
+/-- … and sortedness is not needed for that: unique coordinates in every fiber suffice, so the
+    statement covers fibers created with `ordered=False` (elements in insertion order). -/
+theorem subtree_reach_nodup_unordered (dflt : ν) (lv : Nat → FpLevel) (d : Nat) (f : Tree Int ν (d + 1))
+    (hu : FpUniq (d + 1) f) : ((fpReach dflt lv d f).map (·.1)).Nodup :=
+  fpReach_nodup_uniq dflt lv d f hu
+
+/-- a tree whose root stores its coordinates as [2, 0, 1] -/
+def exUnordered : Tree Int Int 2 := (show List (Int × Tree Int Int 1) from
+  [(2, (show List (Int × Int) from [(1, 5), (0, 6)])), (0, (show List (Int × Int) from [(3, 1)])),
+   (1, (show List (Int × Int) from []))])
+
+example : FpUniq 2 exUnordered ∧ ¬ WF 2 exUnordered := by
+  refine ⟨⟨by decide, ?_⟩, fun h => absurd ((fp_wfB_iff 2 exUnordered).2 h) (by decide)⟩
+  intro e he
+  simp only [exUnordered, List.mem_cons, List.not_mem_nil, or_false] at he
+  rcases he with rfl | rfl | rfl <;> exact ⟨by decide, fun _ _ => trivial⟩
+
+example : fpGetSubTree (0 : Int) (exLv .U .C) 1 exUnordered [] = some 173 ∧
+          fpGetSubTree (0 : Int) (exLv .U .C) 1 exUnordered [2] = some 24 := by decide
+
 /-- non-vacuity of the reachability clauses on `exTree` (children 0 ↦ [1↦5, 3↦0], 2 ↦ [], 3 ↦ [0↦0]):
     under an uncompressed top rank the absent coordinate 1 is reached as an empty fiber and
     coordinate 4 (= shape) is not; under a compressed top rank the stored but empty children 2, 3
